@@ -992,6 +992,8 @@ class CallMixin:
         dt = kw.get("dtype")
         extra = {"dtype": self.res(dt, st)} if dt is not None else None
         # ---- builtins evaluated by the interpreter
+        if q == "types.MethodType" and len(P) == 2 and not kw:
+            return self.mk("BoundMethod", (pos[1], pos[0]), None, site)      # MethodType(f, obj)(*a) is f(obj, *a)
         if q == "builtins.isinstance" and len(P) == 2:
             def none_type(t_):
                 return (is_call_of(t_, "builtins.type") and len(t_.args) == 2 and t_.args[1].op == "Const" and
